@@ -9,6 +9,13 @@ FLOAT_TB = "IEEE-754 rounding: theorems are over exact rationals; the f64 instan
 CONSTS = {"script": "gen_consts.py"}
 UNITS = {"script": "gen_units.py"}
 
+CHARTABLE = {"harness": ["chartable", "{LEAN}/CookModel/Gen/CharTable.lean"]}
+SYNTAX_TB = [
+    "the character-class table (Gen/CharTable.lean) is produced on every run by the real lexer (cfg(cooklang_verif) token hook) and std's char predicates over all 1,112,064 scalar values; the theorems hold for every CharSpec",
+    "modelled, not verified: finl_unicode / std Unicode tables (through the generated table), codesnake's renderer (only exercised: SourceReport::write is run on every report)",
+    "translators/gen_consts.py (extension and modifier flag values from src/lib.rs, src/parser/model.rs)",
+]
+
 PROPS = {
     "C12": {
         "gen": [CONSTS],
@@ -27,5 +34,10 @@ PROPS = {
             "modelled, not verified: std f64 abs / partial_cmp, Iterator::min_by / rev / find, slice::sort_by (stable); the unit index, Arc identity and all_units[id] are represented by resolved records carrying their id"],
         "assumptions": ["the converter is well formed (Converter.wf: best lists hold units of their own quantity, every unit has a key, fractions configurations within new_approx's documented preconditions); decided for the generated bundled converter (C09_bundled_wf), for other converters it is C16's invariant",
                         "oracle values are finite with magnitude in [1e-9, 1e12] or zero (outside that range f64 overflow/underflow makes 'within floating-point tolerance' meaningless); non-finite and extreme values are compared with the model only"],
+    },
+    "C04": {
+        "gen": [CONSTS, CHARTABLE],
+        "trusted_base": COMMON_TB + SYNTAX_TB,
+        "assumptions": ["theorems cover the lexer (tiling, boundaries) and text assembly (fragment faithfulness, order) for every input; the span arithmetic of the individual block parsers and of the analysis labels is covered by the correspondence run (every span of every event/diagnostic compared with the model) and by the oracle on the implementation, not by a theorem yet"],
     },
 }
